@@ -10,7 +10,7 @@ use crate::{error::{self,met_new_found},model::{name,ShowComment}};
 use syn::{parse_quote,Pat,PatType,PatIdent,Path,punctuated::Punctuated,
           GenericParam,Signature,Ident,FnArg,Type,TypePath,ReturnType,Token};
 
-use proc_macro_error::{abort, abort_call_site};
+use proc_macro_error::abort;
 use proc_macro2::TokenStream;
 use quote::{quote,format_ident};
 
@@ -283,8 +283,8 @@ pub fn pat_vars_flat_into_ident( pat: &Pat ) -> Option<Ident> {
         },
         Pat::Rest(_) => return None,
         _ => {
-            let msg = "Internal Error.'method::pat_vars_flat_into_ident'. Unexpected pattern for function argument.";
-            abort_call_site!(msg;note=error::PARAMETERS_ALLOWED_PATTERN_NOTE); 
+            let msg = "Unexpected pattern for function argument.";
+            abort!(pat,msg;note=error::PARAMETERS_ALLOWED_PATTERN_NOTE); 
         },
     }
 
